@@ -61,6 +61,9 @@ func (g *Gen) placeOf(v ssa.Value) *Place {
 	}
 	if gl, ok := v.(*ssa.Global); ok {
 		et := deref(gl.Type())
+		if isAggregate(et) {
+			return g.placeOfRef(g.globalRef(gl), et)
+		}
 		return &Place{Comp: g.u.GlobalComp(gl.Pkg.Pkg.Path(), gl.Name(), et), Type: et}
 	}
 	et := deref(v.Type())
@@ -247,6 +250,9 @@ func (g *Gen) val(v ssa.Value) Term {
 	case *ssa.Function:
 		return fmt.Sprint(g.u.FnID(FuncKey(x)))
 	case *ssa.Global:
+		if isAggregate(deref(x.Type())) {
+			return g.globalRef(x)
+		}
 		g.fail("address of global %s escapes", x.Name())
 	}
 	if g.places[v] != nil {
@@ -286,4 +292,13 @@ func (g *Gen) constant(c *ssa.Const) Term {
 	}
 	g.fail("unsupported constant %s", c)
 	return ""
+}
+
+// globalRef: package-level variables of struct/array type are objects at
+// constant (negative, pairwise distinct) references.
+func (g *Gen) globalRef(gl *ssa.Global) Term {
+	name := "gref." + sanitize(gl.Pkg.Pkg.Path()+"."+gl.Name())
+	id := g.u.FnID("global:" + name)
+	g.u.Extra(fmt.Sprintf("(define-fun %s () Int (fld 0 (- %d)))", name, id))
+	return name
 }
